@@ -33,7 +33,10 @@ MANIFEST = dict(
           "copy_self_forwards_every_param, soup_copy_self_source). Tie: every element of generated/parsed/edited trees x "
           "copy.copy/deepcopy/__copy__ against the property oracle and the Lean mirror + recursion (identity numbering), "
           "_event_stream against the recursive event list, single edits on copy resp. original with full re-inspection of the "
-          "other side (and against applyEdit), == / != / hash on all pairs of pools of near-identical trees against an "
+          "other side (and against applyEdit); histories observe-edit-observe: every node of document and copy is hashed / rendered "
+          "/ compared BEFORE the edit, afterwards the edited side must be indistinguishable (hash, renderings, text, _is_xml) from "
+          "a never-observed twin with the same history, == must still be the structural relation, and fresh copies of the edited "
+          "element, its parent and the root must again be equal, render and hash alike (exposes per-object caches); == / != / hash on all pairs of pools of near-identical trees against an "
           "independent structural evaluator and eqImpl, exhaustive small trees with repeated identical sub-structure, pickle "
           "round trips of documents, tags and strings against decode()+re-parse."),
     design="7/C12",
@@ -640,10 +643,27 @@ class Unrepresentable(Exception):
     pass
 
 
+_SK_CACHE = {}
+
+
 def setting_key(v):
-    """canonical *value* of a builder-level setting object (so a refactoring that copies these objects stays equal)"""
+    """canonical *value* of a builder-level setting object (so a refactoring that copies these objects stays equal).
+    Memoised per object: the harness never mutates these objects."""
     if v is None:
         return None
+    if isinstance(v, (dict, set, frozenset)):
+        hit = _SK_CACHE.get(id(v))
+        if hit is not None and hit[0] is v and hit[2] == len(v):
+            return hit[1]
+        k = _setting_key(v)
+        if len(_SK_CACHE) > 20000:
+            _SK_CACHE.clear()
+        _SK_CACHE[id(v)] = (v, k, len(v))
+        return k
+    return _setting_key(v)
+
+
+def _setting_key(v):
     if isinstance(v, dict):
         return "D" + repr(sorted((repr(k), setting_key(x)) for k, x in v.items()))
     if isinstance(v, (set, frozenset, list, tuple)):
@@ -852,6 +872,39 @@ def renderings(n):
     return (type(n).PREFIX + raw(n) + type(n).SUFFIX, n.output_ready(formatter=None), raw(n), n.get_text("|"))
 
 
+OBS_TAG = ["hash", "decode()", "get_text", "_is_xml", "is_empty_element", ".string", "== itself", "prettify()"]
+OBS_STR = ["hash", "text", "get_text", "_is_xml"]
+
+
+def observe(root):
+    """every observation the property speaks about, taken on every node at or below root. Taking it also fills whatever
+    per-object cache an implementation may keep (hash, rendering, _is_xml, strings): observing, editing and observing again
+    is what exposes a cache that is not invalidated."""
+    out = []
+    for n in all_nodes(root):
+        if is_tag(n):
+            st = n.string
+            out.append((hash(n), n.decode(), n.get_text("|"), n._is_xml, bool(n.is_empty_element),
+                        None if st is None else raw(st), n == n, n.prettify() if n is root or n.parent is root else None))
+        else:
+            out.append((hash(n), raw(n), n.get_text("|"), n._is_xml))
+    return out
+
+
+def observe_diff(a, b):
+    """first difference of two observation lists, readable"""
+    if len(a) != len(b):
+        return f"{len(a)} vs {len(b)} nodes"
+    for i, (x, y) in enumerate(zip(a, b)):
+        if x != y:
+            names = OBS_TAG if len(x) == len(OBS_TAG) else OBS_STR
+            if len(x) != len(y):
+                return f"node {i}: kind"
+            j = [p != q for p, q in zip(x, y)].index(True)
+            return f"node {i} (pre-order): {names[j]}: {x[j]!r} vs {y[j]!r}"
+    return None
+
+
 def full_dump(root):
     """everything observable of a tree, for before/after comparison: shape, renderings, identity partition, pointers"""
     reg = Reg()
@@ -864,7 +917,7 @@ def full_dump(root):
             for v in x.attrs.values():
                 if isinstance(v, list):
                     idents.append(reg.oid(v))
-    return (shape(root), renderings(root), idents, pointer_errors(root, detached=False))
+    return (shape(root), renderings(root), idents, pointer_errors(root, detached=False), observe(root))
 
 
 def do_copy(el, how):
@@ -1147,13 +1200,22 @@ def model_edit_line(reg, prep, op):
     return f"c12 edit {e} {prep['before']}"
 
 
-def check_edit(ctx, batch, recipe, path, how, side, op, stream, tree_id):
+def check_edit(ctx, batch, recipe, path, how, side, op, stream, tree_id, primed=True):
     """one single edit on the copy (side='copy') or on the original (side='original') of a freshly built tree;
-    the other side must not change in any observable respect."""
+    the other side must not change in any observable respect.
+    `primed`: every node of the document (the element, its descendants, its ancestors, the root) and of the copy is
+    hashed / rendered / compared BEFORE the edit. Afterwards (a) the edited side must be indistinguishable from a twin that
+    went through the same history without ever having been observed, and (b) fresh copies of the edited element, of its
+    parent and of the root must again be equal, render alike and hash alike (history: hash, edit, copy)."""
     world = build(recipe)
     el = node_at(world, path)
+    if primed:
+        observe(world)
     c = do_copy(el, how)
-    case = {"op": "edit", "recipe": recipe, "path": list(path), "how": how, "side": side, "edit": op}
+    if primed:
+        observe(c)
+        c == el, el == c, hash(c) == hash(el)
+    case = {"op": "edit", "recipe": recipe, "path": list(path), "how": how, "side": side, "edit": op, "primed": primed}
     kf = "C12-copy-coerces-nonstring-attr" if nonstr_attr(el) else None
     target, other = (c, world) if side == "copy" else (el, c)
     before = full_dump(other)
@@ -1180,9 +1242,10 @@ def check_edit(ctx, batch, recipe, path, how, side, op, stream, tree_id):
     after = full_dump(other)
     ctx.case((tree_id, tuple(path), side, op[0]))
     if before != after:
-        names = ["shape", "rendering", "object identities", "pointers"]
+        names = ["shape", "rendering", "object identities", "pointers", "hash / rendering / text of some node"]
         i = [x != y for x, y in zip(before, after)].index(True)
-        detail = shape_diff(before[0], after[0]) if i == 0 else f"{before[i]!r} -> {after[i]!r}"
+        detail = (shape_diff(before[0], after[0]) if i == 0 else observe_diff(before[4], after[4]) if i == 4
+                  else f"{before[i]!r} -> {after[i]!r}")
         ctx.count(f"{stream}:oracle-fails")
         if sum(1 for v in ctx.violations if v["stream"] == stream) < 8:
             ctx.violation(f"editing the {side} changed the {'original' if side == 'copy' else 'copy'} ({names[i]})",
@@ -1195,6 +1258,73 @@ def check_edit(ctx, batch, recipe, path, how, side, op, stream, tree_id):
                 batch.add(line, expected, case, "Lean applyEdit and the real edit disagree", stream)
         except Unrepresentable:
             pass
+    if not is_tag(target):
+        return
+    hstream = "histories"
+    # == between the two sides after the edit: still the structural relation (they were compared before the edit)
+    try:
+        want = eq_spec(c, el)
+        got = (c == el, el == c, not (c != el), not (el != c))
+        if got != (want,) * 4:
+            ctx.count(f"{hstream}:oracle-fails")
+            if not capped(ctx, hstream):
+                ctx.violation("after an edit, == between copy and original is not the structural relation", case=case | {"check": "eq-after-edit"},
+                              expected=str(want), observed=str(got), stream=hstream, kf=kf)
+    except RecursionError:
+        raise
+    ctx.count(f"history:{'observed-before-edit' if primed else 'never-observed'}:{side}")
+    # (a) the same history on objects nobody has looked at yet
+    world2 = build(recipe)
+    el2 = node_at(world2, path)
+    t2 = do_copy(el2, how) if side == "copy" else el2
+    try:
+        applied2 = apply_op(t2, op, world2 if side == "original" else None)
+    except RecursionError:
+        raise
+    except Exception:
+        applied2 = False
+    if applied2:
+        ra, rb = (c, t2) if side == "copy" else (world, world2)
+        d = shape_diff(shape(ra), shape(rb))
+        if d:
+            ctx.count("history:twin-not-comparable")   # the harness' own replay differs: no verdict
+        else:
+            od = observe_diff(observe(ra), observe(rb))
+            ctx.case(None)
+            if od:
+                ctx.count(f"{hstream}:oracle-fails")
+                if not capped(ctx, hstream):
+                    ctx.violation("after an edit, an object that had been hashed / rendered before the edit differs from a twin of "
+                                  "identical shape that went through the same history unobserved" if primed else
+                                  "two objects of identical shape and history are observed differently",
+                                  case=case | {"check": "twin"}, expected="the same hash, renderings and text", observed=od[:2000],
+                                  stream=hstream, kf=kf)
+    # (b) hash / edit / copy: copies taken after the edit
+    if side == "copy":
+        subjects = [("the edited copy", c, c)]
+    else:
+        subjects = [("the edited element", el, world)]
+        if el.parent is not None and el.parent is not world:
+            subjects.append(("the parent of the edited element", el.parent, world))
+        if el is not world:
+            subjects.append(("the root of the edited document", world, world))
+    for si, (label, x, w) in enumerate(subjects):
+        for h2 in (("copy", "deepcopy") if primed and si == 0 else (how,)):
+            try:
+                cx = do_copy(x, h2)
+            except RecursionError:
+                raise
+            except Exception as ex:
+                ctx.violation("copying after an edit raised", case=case | {"check": "copy-after-edit"}, expected="a copy",
+                              observed=f"{type(ex).__name__}: {ex}", stream=hstream, kf=kf)
+                continue
+            ctx.case(None)
+            ctx.count("history:copy-after-edit")
+            for what, exp, obs in oracle_copy(w, x, cx):
+                ctx.count(f"{hstream}:oracle-fails")
+                if not capped(ctx, hstream):
+                    ctx.violation(f"history observe / edit / copy: {what} ({label}, {h2})", case=case | {"check": "copy-after-edit"},
+                                  expected=str(exp)[:2000], observed=str(obs)[:2000], stream=hstream, kf=kf)
 
 
 # --------------------------------------------------------------------------------------
@@ -1311,6 +1441,7 @@ def build_pool(recipe, pool_desc, seed_tuple):
     if not cands:
         return pool, keep
     base = cands[pool_desc["base"] % len(cands)]
+    observe(base_world)     # everything has been hashed / rendered / compared before any variant is derived
     pool.append(("base", base))
     pool.append(("copy", copy.copy(base)))
     # the same markup parsed again: an equal tag living in another document
@@ -1327,6 +1458,8 @@ def build_pool(recipe, pool_desc, seed_tuple):
     for i, (k, op) in enumerate(pool_desc["variants"]):
         r = rng_for(*seed_tuple, "variant", i)
         v = copy.copy(base)
+        observe(v)
+        v == base, base == v
         try:
             ok = apply_variant(r, v, k, op)
         except Exception:
@@ -1378,9 +1511,14 @@ def check_pool(ctx, batch, recipe, pool_desc, seed_tuple, stream, pool_id):
             if sum(1 for v in ctx.violations if v["stream"] == stream) < 8:
                 ctx.violation("== / != is not the structural relation of the property", case=case, expected=f"== {want}, != {not want}",
                               observed=f"== {got_eq}, != {got_ne}", stream=stream)
-        if want and is_tag(a) and is_tag(b) and la in ("base", "copy") and lb in ("base", "copy"):
-            if hash(a) != hash(b):
-                ctx.violation("a copy hashes differently from its original", case=case, expected=hash(a), observed=hash(b), stream=stream)
+        if is_tag(a) and is_tag(b) and i != j and not is_soup(a) and not is_soup(b):
+            same_render = bool(want) and a.decode() == b.decode() and a.prettify() == b.prettify()
+            if ((want and la in ("base", "copy") and lb in ("base", "copy")) or same_render) and hash(a) != hash(b):
+                ctx.count(f"{stream}:oracle-fails")
+                if not capped(ctx, stream):
+                    ctx.violation("a copy hashes differently from its original" if not same_render else
+                                  "two tags that are equal and render identically hash differently (one was hashed before it was edited)",
+                                  case=case, expected=hash(a), observed=hash(b), stream=stream)
         if dumps[i] is not None and dumps[j] is not None and (is_tag(a) or is_tag(b) or True):
             batch.add(f"c12 eq {dumps[i]} {dumps[j]}", f"{int(got_eq)}{int(b == a)}{int(got_ne)}", case,
                       "Lean eqImpl and == disagree", stream)
@@ -1456,7 +1594,7 @@ def stream_random(ctx, batch, n_trees):
                                   case={"op": "edit", "recipe": recipe, "path": list(path), "how": "copy", "side": "original",
                                         "edit": ["str_extract" if k % 2 else "str_replace"]}, stream="independence")
                 continue
-            check_edit(ctx, batch, recipe, path, HOWS[(ti + k) % 3], side, op, "independence", ti)
+            check_edit(ctx, batch, recipe, path, HOWS[(ti + k) % 3], side, op, "independence", ti, primed=(ti + k) % 5 != 0)
 
 
 def stream_pools(ctx, batch, n_pools):
@@ -1723,7 +1861,7 @@ def run_case(ctx, batch, c, stream):
     elif op == "edit":
         if c["edit"][0].startswith("str_"):
             return
-        check_edit(ctx, batch, c["recipe"], tuple(c["path"]), c["how"], c["side"], c["edit"], stream, -1)
+        check_edit(ctx, batch, c["recipe"], tuple(c["path"]), c["how"], c["side"], c["edit"], stream, -1, primed=c.get("primed", True))
     elif op == "eq":
         check_pool(ctx, batch, c["recipe"], c["pool"], tuple(c["seed"]), stream, -1)
 
@@ -1733,7 +1871,9 @@ def run(ctx: Ctx):
     warnings.simplefilter("ignore")
     ctx.rule = ("every element of every tree is copied (copy.copy / copy.deepcopy / __copy__ in rotation); a receiver counts as non-trivial "
                 "when it is a tag with at least two descendants and some attribute below it; every applied single edit (tree, receiver, "
-                "side, kind) and every ordered pair of distinct tags of an equality pool counts as one non-trivial case")
+                "side, kind) and every ordered pair of distinct tags of an equality pool counts as one non-trivial case; 4 of 5 edit "
+                "cases are 'primed' (all nodes hashed/rendered/compared before the edit), each followed by the twin comparison and by "
+                "copies of the edited element, its parent and the root")
     ctx.assumptions = [
         "_event_stream(descendants) yields the balanced event list of the tree (C01/C02 chain invariant; compared on every receiver)",
         "attribute values are str or list of str (type annotation _AttributeValue); raw int/float/bool/None values are the known finding",
@@ -1743,6 +1883,8 @@ def run(ctx: Ctx):
         "the BeautifulSoup object itself carries no attributes, its own name and hidden flag are untouched (documented); "
         "no tag is named 'is_xml' (PageElement._is_xml of a parentless bare Tag reads getattr(self, 'is_xml') = find('is_xml'))",
         "object identities are compared through pre-order numbering, not id()",
+        "hash of a mutable tree changes when it is edited (set/dict membership after edits is not claimed); claimed: a copy hashes "
+        "like its original at the moment of copying whatever was observed before, and tags that are == and render identically hash alike",
         "pickle: compared with decode() + re-parse by an equally configured builder; Tag/NavigableString pickles on small documents only",
     ]
     E()
@@ -1751,8 +1893,8 @@ def run(ctx: Ctx):
     stream_nonstring(ctx)
     stream_settings(ctx)
     stream_small(ctx, batch, ctx.n(5, 6))
-    stream_random(ctx, batch, ctx.n(1400, 9000))
-    stream_pools(ctx, batch, ctx.n(300, 1800))
+    stream_random(ctx, batch, ctx.n(1200, 7000))
+    stream_pools(ctx, batch, ctx.n(250, 1600))
     stream_pickle(ctx, ctx.n(400, 3000))
     batch.flush()
     if ctx.lean is not None and not ctx.lean.ok:
